@@ -9,13 +9,22 @@ for f in sorted(glob.glob(os.path.join(V, "mutation", "*.json"))):
 out = ["# Systematic mutants: last run of each group (`tools/mutate.py <group>`)", "",
        "See `TRIAGE.md` for what the survivors led to and why the remaining ones stay.  `scale` is the fraction of each check's",
        "quick-tier case count used per mutant (single worker).", "",
-       "| group | checks | scale | mutants | killed | broken (harness exit 2) | survived | killed by |", "|---|---|---|---|---|---|---|---|"]
-tot = [0, 0, 0, 0]
+       "A group whose row has a *re-run* entry was first run in full and later had its survivors re-run (`--survivors`) after the checks",
+       "had been strengthened: killed = killed before + newly killed.  Survivors of the first run that could not be matched any more,",
+       "because fixes to hio had moved or changed their source lines in between, were not re-run; they are counted in *not re-run* (an upper",
+       "bound on survivors is survived + not re-run).", "",
+       "| group | checks | scale | mutants | killed | broken (harness exit 2) | survived | not re-run | re-run (newly killed) | killed by |",
+       "|---|---|---|---|---|---|---|---|---|---|"]
+tot = [0, 0, 0, 0, 0]
 for d in rows:
     kb = ", ".join("%s %d" % (k, v) for k, v in d["killed_by"].items() if v)
-    out.append("| %s | %s | %s | %d | %d | %d | %d | %s |" % (d["group"], " ".join(d["checks"]), d["scale"], d["total"], d["killed"], d["broken"], d["survived"], kb))
+    rr = d.get("rerun_of_survivors")
+    missing = d["total"] - d["killed"] - d["broken"] - d["survived"]
+    out.append("| %s | %s | %s | %d | %d | %d | %d | %d | %s | %s |" % (d["group"], " ".join(d["checks"]), d["scale"], d["total"], d["killed"], d["broken"],
+                                                                 d["survived"], missing, "%d (%d)" % (rr["rerun"], rr["newly_killed"]) if rr else "", kb))
     for i, k in enumerate(("total", "killed", "broken", "survived")):
         tot[i] += d[k]
-out.append("| all | | | %d | %d | %d | %d | |" % tuple(tot))
+    tot[4] += missing
+out.append("| all | | | %d | %d | %d | %d | %d | | |" % tuple(tot))
 open(os.path.join(V, "mutation", "README.md"), "w").write("\n".join(out) + "\n")
 print("\n".join(out))
